@@ -870,6 +870,11 @@ func cmdSelftest(args []string) {
 	if err := selftest(full); err != nil {
 		die(2, "self-test failed: %v", err)
 	}
+	if m, _ := filepath.Glob(filepath.Join(os.TempDir(), "verif-selftest-race*")); len(m) > 0 {
+		for _, f := range m {
+			os.Remove(f)
+		}
+	}
 	fmt.Println("selftest: ok")
 }
 
@@ -917,11 +922,39 @@ func lastLine(s string) string {
 }
 
 // selftest: determinism of the simulator (same seed -> same event-log hash across processes and GOMAXPROCS).
+// fidelitySelftest compares the simulated servers' replies with those of the unmodified packages over real
+// loopback TCP (validates simnet and the rewriter; never used for a verdict).
+func fidelitySelftest(bin string, n int) error {
+	cmd := exec.Command(bin, "-test.run", "^TestFidelity$")
+	cmd.Env = append(os.Environ(), "VERIF_FIDELITY=1", fmt.Sprintf("VERIF_COUNT=%d", n))
+	b, err := cmd.CombinedOutput()
+	for _, l := range strings.Split(string(b), "\n") {
+		if strings.HasPrefix(l, "FIDELITY ") {
+			fmt.Println("selftest: fidelity (simnet vs unmodified packages over loopback TCP):", strings.TrimPrefix(l, "FIDELITY "))
+		}
+	}
+	if err != nil {
+		return fmt.Errorf("fidelity: %v\n%s", err, tail(string(b), 1500))
+	}
+	return nil
+}
+
 func selftest(full bool) error {
 	if err := rewriterSelftest(); err != nil {
 		return err
 	}
 	bi := ensureBinary("det")
+	nfid := 10
+	if full {
+		nfid = 60
+	}
+	if err := fidelitySelftest(bi.Bin, nfid); err != nil {
+		if full {
+			return err
+		}
+		// the short self-test runs inside setup_cmd: loopback sockets may be unavailable there
+		fmt.Println("selftest: fidelity comparison not completed (not fatal in the short self-test):", strings.SplitN(err.Error(), "\n", 2)[0])
+	}
 	propsList := []string{"C04"}
 	count, reps := 40, 2
 	gmps := []string{"1", "16"}
@@ -935,7 +968,18 @@ func selftest(full bool) error {
 		count, reps = 64, 10
 		gmps = []string{"1", "4", "16"}
 	}
+	if full {
+		propsList = append(propsList, "C18")
+	}
 	for _, prop := range propsList {
+		bin := bi.Bin
+		cnt, rp := count, reps
+		if prop == "C18" {
+			// the same plans and schedules must replay identically in the -race build
+			bin = ensureBinary("race").Bin
+			cnt, rp = 24, 3
+		}
+		count, reps := cnt, rp
 		var ref string
 		var mu sync.Mutex
 		var firstErr error
@@ -948,8 +992,8 @@ func selftest(full bool) error {
 					defer wg.Done()
 					sem <- struct{}{}
 					defer func() { <-sem }()
-					cmd := exec.Command(bi.Bin, "-test.run", "^TestWorker$")
-					cmd.Env = append(os.Environ(), "GOMAXPROCS="+g, "VERIF_MODE=dethash", "VERIF_PROP="+prop, "VERIF_TIER=quick", "VERIF_SEED=424242", "VERIF_FROM=0", fmt.Sprintf("VERIF_COUNT=%d", count))
+					cmd := exec.Command(bin, "-test.run", "^TestWorker$")
+					cmd.Env = append(os.Environ(), "GORACE=halt_on_error=0 exitcode=0 log_path="+filepath.Join(os.TempDir(), "verif-selftest-race"), "GOMAXPROCS="+g, "VERIF_MODE=dethash", "VERIF_PROP="+prop, "VERIF_TIER=quick", "VERIF_SEED=424242", "VERIF_FROM=0", fmt.Sprintf("VERIF_COUNT=%d", count))
 					b, err := cmd.CombinedOutput()
 					var lines []string
 					for _, l := range strings.Split(string(b), "\n") {
